@@ -114,6 +114,90 @@ def cli_batch(item):
         shutil.rmtree(d, ignore_errors=True)
 
 
+# ------------------------------------------------------------------------------- the guided journey (Journey.tla) ----
+SHIMBIN = os.path.join(core.ROOT, 'shim', 'bin')
+JOURNEY_SETTINGS = ('year: 2025\ndata_sources:\n  - name: Card\n    file: data/card.csv\n    format: "{date:%m/%d/%Y},{description},{amount}"\n'
+                    'merchants_file: config/merchants.rules\nviews_file: config/views.rules\n')
+JOURNEY_WORDS = ['NORTHWIND', 'CONTOSO', 'FABRIKAM', 'TAILSPIN', 'WINGTIP', 'LITWARE']
+
+
+def _advice(text):
+    import re
+    if 'No config found' in text:
+        return 'no-config', None
+    if 'No data sources configured' in text:
+        return 'no-sources', None
+    m = re.search(r'(\d+) unknown merchants', text)
+    if m:
+        return 'unknowns', int(m.group(1))
+    if 'All merchants categorized' in text:
+        return 'done', 0
+    return 'unrecognised', None
+
+
+def journey_worker(item):
+    """One behaviour of Journey.tla replayed with the real CLI.  Returns (steps, C19 failures, advice notes)."""
+    name, hist = item
+    d = tempfile.mkdtemp(prefix='c19j_')
+    env = {'PATH': SHIMBIN + os.pathsep + os.environ.get('PATH', '')}
+    fails, notes = [], []
+    stage, unknown = 'empty', 0
+    descs = []
+
+    def check_advice(after):
+        r = cli.run_tally(['workflow'], cwd=d, env_extra=env)
+        got = _advice(r['out'])
+        want = ('no-config', None) if stage == 'empty' else ('no-sources', None) if stage == 'starter' else \
+            (('unknowns', unknown) if unknown > 0 else ('done', 0))
+        if got != want:
+            notes.append('after %s: tally workflow says %s, Journey!Advice is %s' % (after, got, want))
+    try:
+        check_advice('start')
+        root = os.path.join(d, 'tally')
+        for step in hist:
+            a = step['a']
+            if a == 'init':
+                r = cli.run_tally(['init'], cwd=d, env_extra=env)
+                if r['rc'] != 0:
+                    notes.append('tally init exits %s: %s' % (r['rc'], r['err'][-200:]))
+                stage = 'starter' if stage == 'empty' else stage
+            elif a == 'sources':
+                n = step['n']
+                descs = ['%s SHOP %s' % (JOURNEY_WORDS[i], 'WEST' if i % 2 else 'EAST') for i in range(n)]
+                rows = ['Date,Description,Amount', '01/03/2025,KNOWN CO,9.99'] + ['01/%02d/2025,%s,%d.25' % (5 + i, x, 10 + i) for i, x in enumerate(descs)]
+                cli.materialise(root, {'config/settings.yaml': JOURNEY_SETTINGS, 'data/card.csv': '\n'.join(rows) + '\n'})
+                with open(os.path.join(root, 'config', 'merchants.rules'), 'a') as f:
+                    f.write('\n[Known]\nmatch: contains("KNOWN CO")\ncategory: Misc\n')
+                stage, unknown = 'sources', n
+            elif a == 'discover':
+                k = step['k']
+                r = cli.run_tally(['discover', '--format', 'json', '--limit', '0'], cwd=d, env_extra=env)
+                try:
+                    items = json.loads(r['out'][r['out'].index('['):])
+                except ValueError:
+                    fails.append(('discover-output', 'discover printed no JSON list with %d descriptions Unknown: %s' % (unknown, (r['out'] + r['err'])[:200])))
+                    break
+                if len(items) != unknown:
+                    fails.append(('unknown-list', 'discover lists %d descriptions, %d are uncategorised' % (len(items), unknown)))
+                take = items[:k]
+                with open(os.path.join(root, 'config', 'merchants.rules'), 'a') as f:
+                    for it in take:
+                        f.write('\n' + it['suggested_rule'].replace('SUBCATEGORY', 'Misc').replace('CATEGORY', 'Food') + '\n')
+                after = cli.up_classification(d)
+                if isinstance(after, str):
+                    fails.append(('rerun-fails', 'after appending %d suggestions `tally up` fails: %s' % (k, after)))
+                    break
+                still = sorted(x for x, v in after.items() if v[1] == 'Unknown')
+                taken = {it['raw_description'] for it in take}
+                if taken & set(still):
+                    fails.append(('suggestion-did-not-take', 'still Unknown after its suggestion was appended: %s' % sorted(taken & set(still))))
+                unknown = len(still)
+            check_advice(a)
+        return name, len(hist), fails, notes
+    finally:
+        shutil.rmtree(d, ignore_errors=True)
+
+
 def run(ck):
     quick = ck.tier == 'quick'
     ck.assumptions += ['descriptions are built from word shapes (plain, metacharacter, quote, short / long number, store number, state code, '
@@ -181,10 +265,41 @@ def run(ck):
             still = sorted(k for k, v in aft.items() if v[1] == 'Unknown')[:5]
             ck.violation({'site': 'discover-loop', 'clause': 'suggestion-did-not-take', 'features': describe(still[0])},
                          {'still_unknown': still}, 'after appending every suggested rule these are still Unknown: %s' % still)
+    # the guided journey: behaviours of Journey.tla (init, configure sources, discover rounds) replayed with the real CLI
+    import simtrace
+    ck.expect_model_ok('Journey', tlc.run('Journey', 'MC_Journey.cfg'))
+    ck.expect_model_violation('Journey/neg', tlc.run('Journey', 'MC_Journey_neg.cfg'), 'Neg_NeverUnknown')
+    tmpj = tempfile.mkdtemp(prefix='c19sim_')
+    try:
+        numj = 24 if quick else 300
+        sim = tlc.run('Journey', 'MC_Journey_sim.cfg', simulate='file=%s/tr,num=%d' % (tmpj, numj), depth=12, workers=1, seed=ck.seed + 19)
+        if sim.error or sim.violated:
+            raise core.Machinery('Journey simulation failed: %s %s' % (sim.error, sim.violated))
+        journeys = []
+        seenj = set()
+        for f, (labels, states) in simtrace.behaviours(tmpj):
+            hist = [dict(h) for h in states[-1]['hist']]
+            key = json.dumps(hist, sort_keys=True)
+            if key not in seenj and hist:
+                seenj.add(key)
+                journeys.append((os.path.basename(f), hist))
+    finally:
+        shutil.rmtree(tmpj, ignore_errors=True)
+    notes = []
+    for name, nsteps, jf, jn in par.pmap(journey_worker, journeys):
+        ck.case(n=nsteps)
+        ck.trace(1)
+        for clause, what in jf:
+            ck.violation({'site': 'journey', 'clause': clause}, {'journey': name, 'detail': what}, 'guided journey: ' + what)
+        notes += jn
+    ck.extra['journeys'] = len(journeys)
+    # what `tally workflow` says is compared with Journey!Advice at every step; it is conformance information, not part of C19
+    ck.extra['journey_advice_mismatches'] = len(notes)
+    ck.extra['journey_advice_mismatch_examples'] = notes[:5]
     ck.sample({'shapes': list(shapes[len(shapes) // 2]), 'description': concretise(shapes[len(shapes) // 2], rnd)})
     ck.extra['rule'] = ('every description of <= %d words over 9 word shapes (TLC state space of Discover.tla), three spellings each, through '
                         'suggest_pattern / suggest_merchant_name / suggest_merchants_rule + parse_merchants.match; batches of 40 descriptions '
-                        'through the real `tally discover`, the suggestions appended, `tally up` rerun. non-trivial = multi-word description'
+                        'through the real `tally discover`, the suggestions appended, `tally up` rerun; behaviours of Journey.tla (init, configure, discover rounds, `tally workflow` advice at every step) with the real CLI. non-trivial = multi-word description'
                         % 4)
     ck.exhaustive = True
 
